@@ -571,6 +571,38 @@ func (m *RegistryMonitor) OnTx(h *History, o *TxObs) {
 	viol := func(kind, what string) {
 		m.Rep.Violation("c17/authority/"+kind, what, txWitness(h, o))
 	}
+	// Runtime descriptors (0x13 active, 0x18 suspended; key = H(runtime id)): anybody's transaction
+	// may move a descriptor between the two (a node registration resumes a suspended runtime), but
+	// the descriptor of an entity-governed runtime changes only in a transaction of that entity.
+	type rtChange struct{ old, new []byte }
+	rtc := map[string]*rtChange{}
+	for _, e := range o.Diff {
+		if len(e.K) > 1 && (e.K[0] == 0x13 || e.K[0] == 0x18) {
+			c := rtc[string(e.K[1:])]
+			if c == nil {
+				c = &rtChange{}
+				rtc[string(e.K[1:])] = c
+			}
+			if e.Old != nil {
+				c.old = e.Old
+			}
+			if e.New != nil {
+				c.new = e.New
+			}
+		}
+	}
+	for id, c := range rtc {
+		if c.old == nil || c.new == nil || bytes.Equal(c.old, c.new) {
+			continue
+		}
+		var ort registry.Runtime
+		if err := cbor.Unmarshal(c.old, &ort); err != nil {
+			continue
+		}
+		if ort.GovernanceModel == registry.GovernanceEntity && !ort.EntityID.Equal(d.Signer) {
+			viol("runtime-changed-by-other-than-governing-entity", fmt.Sprintf("descriptor of runtime %s (key %x), governed by entity %s, changed in a transaction signed by %s", ort.ID, id, ort.EntityID, d.Signer))
+		}
+	}
 	for _, e := range o.Diff {
 		if len(e.K) == 0 {
 			continue
